@@ -245,11 +245,11 @@ Proof.
   destruct uh as [p r]. cbn [t_pc t_rest].
   destruct p; repeat match goal with |- context[if ?b then _ else _] => destruct b end;
     cbn [log thrs wout sumz]; rewrite ?(cnt_upd _ _ _ _ _ Hu); cbn [is_ent t_pc at_pc]; try lia;
-    try (destruct r as [|[|] r]; cbn [begin t_pc]; lia).
+    try (destruct r as [|[|] r]; cbn [begin t_pc is_ent]; lia).
   (* PWy: wout moves on *)
   pose proof (G _ eq_refl eq_refl) as H1.
   rewrite (diff_inc_r tk (wout c) _ eq_refl H1).
-  destruct r as [|[|] r]; cbn [begin t_pc]; lia.
+  destruct r as [|[|] r]; cbn [begin t_pc is_ent]; lia.
 Qed.
 
 (* while writer t waits for its ticket, at most as many writers enter as there are
